@@ -14,6 +14,8 @@ import PyGqlModel.Props.C06_spreads
 import PyGqlModel.Props.C06_vars
 import PyGqlModel.Props.C06_frags
 import PyGqlModel.Props.C06_cycles3
+import PyGqlModel.Props.C06_values
+import PyGqlModel.Props.C06_overlap
 namespace PyGql.Props.C06
 open PyGql PyGql.Validate PyGql.Validate.Spec
 
@@ -29,13 +31,15 @@ def ProvedVars : List Rule :=
 def ProvedPermDefs : List Rule := Proved ++ ProvedTyped
 /-- proved for documents with unique, non-empty fragment names -/
 def ProvedCyc : List Rule := [.noFragmentCycles]
-def ProvedAll : List Rule := ProvedPermDefs ++ ProvedOrder ++ ProvedVars ++ ProvedCyc
+/-- val2, Props/C06_values.lean (the clause the code implements; V8 is the gap to 5.6.1) -/
+def ProvedValues : List Rule := [.valuesOfCorrectType]
+def ProvedAll : List Rule := ProvedPermDefs ++ ProvedOrder ++ ProvedVars ++ ProvedCyc ++ ProvedValues
 
 /-- the variants of the validator the uniform theorems speak about: the variable collector of /repo HEAD
     (fix commit 160f78c). `Fixes.all` satisfies it; the harness checks on every run that the tree under test does -/
-def HeadVars (fx : Fixes) : Prop := fx.v3 = true ∧ fx.v4 = true ∧ fx.v11 = true
+def HeadVars (fx : Fixes) : Prop := fx.v3 = true ∧ fx.v4 = true ∧ fx.v11 = true ∧ fx.v7 = true
 
-theorem headVars_all : HeadVars Fixes.all := ⟨rfl, rfl, rfl⟩
+theorem headVars_all : HeadVars Fixes.all := ⟨rfl, rfl, rfl, rfl⟩
 
 /-- what the parser guarantees and no rule checks: fragment names are not empty -/
 def NamesNonEmpty (d : Doc) : Prop := ∀ f ∈ Spec.fragNames d, f ≠ ""
@@ -56,13 +60,14 @@ def SpecAll (r : Rule) (s : SchemaD) (fx : Fixes) (d : Doc) : Prop :=
   | .noUnusedVariables => Spec.noUnusedVariables d
   | .variablesInAllowedPosition => Spec.variablesInAllowedPosition s d
   | .noFragmentCycles => Spec.noFragmentCycles d
+  | .valuesOfCorrectType => Spec.valuesOfCorrectType s fx d
   | r => SpecOf r s d
 
 theorem rule_iff_all (s : SchemaD) (fx : Fixes) (hfx : HeadVars fx) (d : Doc) (hne : NamesNonEmpty d)
     (hnd : (Spec.fragNames d).Nodup) (r : Rule) (hr : r ∈ ProvedAll) :
     Silent s fx r d ↔ SpecAll r s fx d := by
   simp only [ProvedAll, ProvedPermDefs, List.mem_append] at hr
-  rcases hr with (((hr | hr) | hr) | hr) | hr
+  rcases hr with ((((hr | hr) | hr) | hr) | hr) | hr
   · have := rule_iff s fx d r hr
     simp only [Proved, List.mem_cons, List.not_mem_nil, or_false] at hr
     rcases hr with rfl | rfl | rfl | rfl | rfl | rfl | rfl | rfl | rfl | rfl <;> exact this
@@ -87,7 +92,10 @@ theorem rule_iff_all (s : SchemaD) (fx : Fixes) (hfx : HeadVars fx) (d : Doc) (h
     · exact rule_variables_in_allowed_position_iff s fx hfx.1 hfx.2.1 d
   · simp only [ProvedCyc, List.mem_cons, List.not_mem_nil, or_false] at hr
     subst hr
-    exact rule_no_fragment_cycles_iff s fx hfx.2.2 d hnd hne
+    exact rule_no_fragment_cycles_iff s fx hfx.2.2.1 d hnd hne
+  · simp only [ProvedValues, List.mem_cons, List.not_mem_nil, or_false] at hr
+    subst hr
+    exact rule_values_of_correct_type_iff s fx d
 
 /-- the rules of `ProvedPermDefs` need no hypothesis on `fx` -/
 theorem rule_iff_permdefs (s : SchemaD) (fx : Fixes) (d : Doc) (r : Rule) (hr : r ∈ ProvedPermDefs) :
@@ -108,7 +116,7 @@ theorem rule_iff_permdefs (s : SchemaD) (fx : Fixes) (d : Doc) (r : Rule) (hr : 
     · exact rule_known_directives_iff s fx d
     · exact rule_no_unused_fragments_iff_implemented s fx d
 
-/-- **verdict_iff** for the conjunction of the 24 rules proved -/
+/-- **verdict_iff** for the conjunction of the 25 rules proved -/
 theorem verdict_iff_all_partial (s : SchemaD) (fx : Fixes) (hfx : HeadVars fx) (d : Doc) (hne : NamesNonEmpty d) :
     (∀ r ∈ ProvedAll, Silent s fx r d) ↔ (∀ r ∈ ProvedAll, SpecAll r s fx d) := by
   have huf : Rule.uniqueFragmentNames ∈ ProvedAll := by decide
@@ -120,7 +128,26 @@ theorem verdict_iff_all_partial (s : SchemaD) (fx : Fixes) (hfx : HeadVars fx) (
     have hnd : (Spec.fragNames d).Nodup := h _ huf
     exact fun r hr => (rule_iff_all s fx hfx d hne hnd r hr).mpr (h r hr)
 
-/-- **attribution** over the 24 rules proved (on the rules run alone; see `attribution_partial`) -/
+/-- **valid by the specification clauses ⇒ accepted, for ALL 26 rules**: if the clause of each of the 25 proved rules
+    holds and no selection set contains two conflicting fields (`Spec.overlappingFieldsCanBeMerged`, val2's half of
+    5.3.2), then NO rule visitor reports. (The converse holds for the 25 rules of `ProvedAll`:
+    `verdict_iff_all_partial`; for `OverlappingFieldsCanBeMergedChecker` it is open: `OverlapFullStatement`.) -/
+theorem spec_valid_accepted_all (s : SchemaD) (fx : Fixes) (hfx : HeadVars fx) (d : Doc) (hne : NamesNonEmpty d)
+    (h : ∀ r ∈ ProvedAll, SpecAll r s fx d) (ho : Spec.overlappingFieldsCanBeMerged s d) :
+    ∀ r ∈ Rule.all, Silent s fx r d := by
+  have hcover : ∀ r ∈ Rule.all, r ∈ ProvedAll ∨ r = .overlappingFieldsCanBeMerged := by decide
+  intro r hr
+  rcases hcover r hr with hp | rfl
+  · exact (verdict_iff_all_partial s fx hfx d hne).mpr h r hp
+  · exact rule_overlapping_fields_can_be_merged_no_false_alarm_partial s fx hfx.2.2.2 d ho
+
+/-- **accepted ⇒ the 25 proved clauses hold** -/
+theorem accepted_spec_valid_partial (s : SchemaD) (fx : Fixes) (hfx : HeadVars fx) (d : Doc) (hne : NamesNonEmpty d)
+    (h : ∀ r ∈ Rule.all, Silent s fx r d) : ∀ r ∈ ProvedAll, SpecAll r s fx d := by
+  have hsub : ∀ r ∈ ProvedAll, r ∈ Rule.all := by decide
+  exact (verdict_iff_all_partial s fx hfx d hne).mp (fun r hr => h r (hsub r hr))
+
+/-- **attribution** over the 25 rules proved (on the rules run alone; see `attribution_partial`) -/
 theorem attribution_all_partial (s : SchemaD) (fx : Fixes) (hfx : HeadVars fx) (d : Doc) (hne : NamesNonEmpty d)
     (hnd : (Spec.fragNames d).Nodup) (r : Rule) (hr : r ∈ ProvedAll)
     (hbad : ¬ SpecAll r s fx d) (hothers : ∀ r' ∈ ProvedAll, r' ≠ r → SpecAll r' s fx d) :
@@ -131,7 +158,7 @@ theorem attribution_all_partial (s : SchemaD) (fx : Fixes) (hfx : HeadVars fx) (
 theorem typedNodes_perm (s : SchemaD) {d d' : Doc} (h : d.defs.Perm d'.defs) (p : Node × View) :
     p ∈ typedNodes s d ↔ p ∈ typedNodes s d' := (h.flatMap_right _).mem_iff
 
-/-- **perm_definitions** for 17 of the 24 rules proved (`PossibleFragmentSpreads` reads the type condition of the LAST
+/-- **perm_definitions** for 17 of the 25 rules proved (`PossibleFragmentSpreads` reads the type condition of the LAST
     definition of a fragment name, so with duplicate fragment names its predicate depends on the order) -/
 theorem perm_definitions_all_partial (s : SchemaD) (fx : Fixes) {d d' : Doc} (h : d.defs.Perm d'.defs) (r : Rule)
     (hr : r ∈ ProvedPermDefs) : Silent s fx r d ↔ Silent s fx r d' := by
